@@ -193,19 +193,23 @@ def run(M, rec, tier, seed, k, n):
                           {"desc": desc, "step": kk, "delta": now - sim["start"], "external": sim["ext"]})
 
     W.USER_KINDS["prob"] = 0.12  # user-defined origin / link kinds conserve vehicles too
+    from vf import batched
+
+    # the node split conserves vehicles column by column when evaluated for K instants at once
+    batched.batched_primitives(M, rec, rng, PROP, 300 if tier == "quick" else 3000, which=("get_upstream_flow",))
     try:
         if tier == "quick":
             W.numpy_steps(M, rec, rng, 500, draws=3, before_case=before)
             W.symbolic_steps(M, rec, rng, symvals, 40, points=2, before_case=before)
             compiled_conservation(M, rec, rng, 60)
-            W.closed_loop(M, rec, rng, 6, 100, on_step=on_step)
+            W.closed_loop(M, rec, rng, 7, 90, on_step=on_step)
             W.inplace_pairs(M, rec, rng, 40, before_case=before)
             W.small_valid_steps(M, rec, rng, 2, before_case=before, seed=seed)
         else:
             W.numpy_steps(M, rec, rng, 6000, draws=3, before_case=before)
             W.symbolic_steps(M, rec, rng, symvals, 250, points=3, before_case=before)
             compiled_conservation(M, rec, rng, 500)
-            W.closed_loop(M, rec, rng, 12, 200, on_step=on_step)
+            W.closed_loop(M, rec, rng, 14, 180, on_step=on_step)
             W.inplace_pairs(M, rec, rng, 300, before_case=before)
             W.small_valid_steps(M, rec, rng, 3, k, n, before_case=before, seed=seed)
             # every valid 4-node topology (49 551 digraphs) with the reduced role set (253 151 networks)
